@@ -217,6 +217,32 @@ func (e *vEnv) broadcast(m ConsensusPayload[vhash]) {
 			}
 		}
 	}
+	if e.want("C15") && p.typ == PrepareRequestType {
+		vCover("C15.proposal")
+		inc := d.Context.Config.TimestampIncrement
+		floor := e.clock / inc * inc
+		exp := d.lastBlockTimestamp + inc
+		if floor > exp {
+			exp = floor
+		}
+		vAssert("C15.O1.increasing", p.ts > d.lastBlockTimestamp)
+		vAssert("C15.O2.value", p.ts == exp)
+		vAssert("C15.O2.clock", p.ts >= floor && floor <= e.clock && e.clock-floor < inc)
+		vAssert("C15.O3.args", e.nNPR > 0 && e.nprTs == p.ts && e.nprNonce == p.nonce && vpSameTxs(e.nprTxs, p.txs))
+		okPool := len(p.txs) == len(e.pool)
+		if okPool {
+			for i, t := range e.pool {
+				if p.txs[i] != t.Hash() {
+					okPool = false
+				}
+				if _, has := d.Transactions[t.Hash()]; !has {
+					okPool = false
+				}
+			}
+		}
+		vAssert("C15.O3.pool", okPool)
+		vAssert("C15.O4.context", d.Timestamp == p.ts && d.Nonce == p.nonce && vpSameTxs(d.TransactionHashes, p.txs) && len(d.Transactions) == len(p.txs))
+	}
 	if e.want("C07") {
 		amev := d.isAntiMEVExtensionEnabled()
 		if p.typ == PreCommitType {
